@@ -739,4 +739,28 @@ theorem own_recordsOf (k : Addr) (s : List Step) : own k (recordsOf s) = records
       · simp [ownSteps, List.filter, stepAddr, hr, recordsOf_cons_history] at ih ⊢; exact ih
     | expire n => simp [ownSteps, List.filter, stepAddr, recordsOf_cons_expire] at ih ⊢; exact ih
 
+theorem bounded_foldl (m : Nat) (s : List Step) : ∀ t : Table, Bounded m t → NoOverflow m s →
+    Bounded m (s.foldl (stepLive m) t) := by
+  induction s with
+  | nil => intro t hb _; exact hb
+  | cons x s ih =>
+    intro t hb hno
+    exact ih _ (bounded_stepLive m t x hb (hno x (List.mem_cons_self ..)))
+      (fun y hy => hno y (List.mem_cons_of_mem _ hy))
+
+theorem bounded_runLive (m : Nat) (s : List Step) (hno : NoOverflow m s) : Bounded m (runLive m s) :=
+  bounded_foldl m s [] (by intro e he; cases he) hno
+
+theorem keys_runLive_nodup (m : Nat) (s : List Step) : (keys (runLive m s)).Nodup :=
+  keys_foldl_nodup m s [] (by simp [keys])
+
+/-- without overflow a pass removes `k`'s entry iff there is one and `now > lastseen + 60·minutes` -/
+theorem removesK_iff (m : Nat) (k : Addr) (t : Table) (now : Nat) (hn : (keys t).Nodup) (hb : Bounded m t) :
+    removesK m k t now = true ↔ ∃ e, entryOf k t = some e ∧ now > e.lastseen + m * 60 := by
+  unfold removesK
+  rw [expireStep_of_bounded now m t hb, entryOf_filter k _ t hn]
+  cases entryOf k t with
+  | none => simp
+  | some e => by_cases h : now > e.lastseen + m * 60 <;> simp [Option.filter, h]
+
 end Rs1090.Proofs.SnapshotWriters
